@@ -3,7 +3,7 @@
 import json, subprocess
 
 TREE = {
- "C01": ("6/C01", "dispatch oracle: for every applied trigger the multiset of reaction commands the framework applies (hook Apply events inside the op's bracket) equals the registrations of a shadow table rebuilt from applied register/revoke ops, entity deaths and polls; one generated case in eight is a world-reactor history (engine wr16: add / partial and full remove / trigger / despawn over WorldReactors and EntityWorldReactors) judged by its run-set oracle; a reaction scheduled for a live registration that is aborted, discarded or never run is reported"),
+ "C01": ("6/C01", "dispatch oracle: for every applied trigger the multiset of reaction commands the framework applies (hook Apply events inside the op's bracket) equals the registrations of a shadow table rebuilt from applied register/revoke ops, entity deaths and polls; one generated case in eight is a world-reactor history (engine wr16: add / partial and full remove / trigger / despawn over WorldReactors and EntityWorldReactors) judged by its run-set oracle; a reaction scheduled for a live registration that is aborted, discarded or never run is reported; one resource key / explicit resource trigger in sixteen names a reactive resource type that is never inserted (dispatch depends on registrations, not on a value being present)"),
  "C02": ("6/C02", "delivery life-cycle oracle: every applied command has exactly one terminal outcome (ran once / aborted because its target is gone) before the tree's flush returns; postponement only while the target executes; replay at completion of the blocker; a system collected although it still has triggers while deliveries wait for it is reported (they can no longer run although their target should exist)"),
  "C03": ("6/C03", "reader oracle: every run's full reader sample equals the data of the delivery that started it (payload id, entity), all other readers empty, at body start and body end; convenience accessors (read / entity / get_entity / is_empty) agree with the primary ones; exclusive systems call a one-off helper system (World::syscall_once) in their body and still see their event afterwards"),
  "C04": ("6/C04", "probe oracle: probes (syscall'd plain and exclusive systems with every reader) at generated tree positions read nothing; runs read nothing beyond their own event; second take fails; reacting flags clear between trees"),
@@ -45,15 +45,15 @@ checks.append(check("C14", "acc14", "6/C14",
     "property-based testing: proptest-generated call histories, reference model oracle, shrinking, JSON replay",
     "exploration only; probe reactors are the observation device; a mutation trigger whose entity died before its application still runs the type-wide reactors (exactly one trigger per call)"))
 checks.append(check("C17", "sys17", "6/C17",
-    "syscall oracle: histories of calls over syscall / named_syscall / register_named_system + named_syscall_direct / spawn_system + spawned_syscall / Commands::syscall / Commands::spawned_syscall / syscall_once (World, Commands, EntityCommands) / EntityCommands::syscall / spawn_rc_system (+ signal drop and collection) / Commands::insert_system / IdMappedSystems::revoke with nesting and command-issued calls; a key -> count model predicts every return value, the order of every queued-command effect visible on return, and every error; validation variants run their validation exactly when the key's state is created; a spawned system despawned during its own call still returns its output; each key's change-detection baseline is its own; cached systems see entities in archetypes created between calls (Query); callbacks handed to the _from entry points may have been initialised 0-2 times by their owner; the ordinary system also writes through a custom Deferred<SystemBuffer>",
+    "syscall oracle: histories of calls over syscall / named_syscall / register_named_system + named_syscall_direct / spawn_system + spawned_syscall / Commands::syscall / Commands::spawned_syscall / syscall_once (World, Commands, EntityCommands) / EntityCommands::syscall / spawn_rc_system (+ signal drop and collection) / Commands::insert_system / IdMappedSystems::revoke with nesting and command-issued calls; a key -> count model predicts every return value, the order of every queued-command effect visible on return, and every error; validation variants run their validation exactly when the key's state is created; a spawned system despawned during its own call still returns its output; each key's change-detection baseline is its own; cached systems see entities in archetypes created between calls (Query); callbacks handed to the _from entry points may have been initialised 0-2 times by their owner; the ordinary system also writes through a custom Deferred<SystemBuffer>; named_syscall_direct on a key that is running right now returns an error, runs nothing and leaves the key's state alone",
     "property-based testing: proptest-generated call histories, reference model oracle, shrinking, JSON replay",
-    "exploration only; a re-entrant call on a running syscall / named key is generated with its own count left open (documented: only the outer-most invocation's state persists)"))
+    "exploration only; a re-entrant syscall / named_syscall on a running key is generated with its own count left open (documented: only the outer-most invocation's state persists); named_syscall_direct on a running key is generated only while no re-entrant named_syscall ran on that key earlier in the history"))
 checks.append(check("C10", "rc10", "6/C10",
     "reference-count oracle: histories of prepare / clone / drop / garbage-collect / app.update / manual-despawn / spawn-child / reparent operations plus worker-thread drops, injected faults (a clone dropped by the unwinding of a caught panic; worker threads dying while holding clones) and clones held by components of other entities (dropped in the middle of a collection pass); after every operation the set of live entities equals the count model (collected exactly when the last clone is gone, with descendants; never earlier; collections idempotent); a collection pass interrupted by a panicking removal hook loses nothing that waited behind the fault; two clones of 40-160 entities dropped by two barrier-released threads; half of the cases run under the whole ReactPlugin with commands / system events aimed at counted entities (the runner must leave them alone) and despawn reactors registered on them; counted entities made by spawn_rc_system_command(_from) / spawn_rc_system(_from), whose spawned system can be called and can strip its own entity during the call; a second world on the same thread that collects in between, or from a component's Drop in the middle of a pass of the first world; a burst of 2100 entities before one collection",
     "property-based testing: proptest-generated operation histories (incl. OS-thread drop schedules), reference-count model oracle, shrinking, JSON replay",
     "exploration only; thread interleavings are sampled by the OS scheduler, not enumerated (the checked invariants are schedule independent)"))
 checks.append(check("C16", "wr16", "6/C16",
-    "world-reactor oracle: histories of add / remove (partial, full, spanning entities) / run / trigger / despawn over two WorldReactors with dynamic bundles, one with starting triggers and three EntityWorldReactors; per window between settles the multiset of runs (reactor, readings, local entity + tag) equals the key-table model; add / remove / run return values (false only for add on a despawned entity); EntityLocal::get / entity agree with get_mut; per-entity run counters in the local data and per-reactor Locals are continuous; local data exists exactly while the entity lives and keeps a trigger; number of system commands constant; key bundles may contain event keys of the resource's type (a second registry keyed by the same TypeId); EntityReactor::add on an entity despawned earlier in the same batch",
+    "world-reactor oracle: histories of add / remove (partial, full, spanning entities) / run / trigger / despawn over two WorldReactors with dynamic bundles, one with starting triggers and three EntityWorldReactors; per window between settles the multiset of runs (reactor, readings, local entity + tag) equals the key-table model; add / remove / run return values (false only for add on a despawned entity); EntityLocal::get / entity agree with get_mut; per-entity run counters in the local data and per-reactor Locals are continuous; local data exists exactly while the entity lives and keeps a trigger; number of system commands constant; key bundles may contain event keys of the resource's type (a second registry keyed by the same TypeId); EntityReactor::add on an entity despawned earlier in the same batch; in half of the histories the type-wide removal reactor that started removal tracking has been revoked again (entity-scoped removal triggers must go on working)",
     "property-based testing: proptest-generated operation histories, reference model oracle, shrinking, JSON replay",
     "exploration only; uses hook helpers verif_has_entity_world_local / verif_system_commands as read-only observers"))
 checks.sort(key=lambda c: c["property_id"])
